@@ -290,6 +290,14 @@ func (d *digest32) nz(f float64) {
 	}
 }
 
+// nzs marks an integer that is a JavaScript negative zero.
+func nzs(f float64) string {
+	if f == 0 && 1/f < 0 {
+		return "(negative-zero)"
+	}
+	return ""
+}
+
 func fb(b uint64) float64   { return math.Float64frombits(b) }
 func fb32(b uint32) float32 { return math.Float32frombits(b) }
 
@@ -345,9 +353,9 @@ func aliasFiles() (js, nat string) {
 func render(t numType, e string) string {
 	switch t.Kind {
 	case 'i':
-		return "i64toa(int64(" + e + "))"
+		return "i64toa(int64(" + e + ")) + nzs(float64(" + e + "))"
 	case 'u':
-		return "u64toa(uint64(" + e + "))"
+		return "u64toa(uint64(" + e + ")) + nzs(float64(" + e + "))"
 	case 'f':
 		if t.Bits == 32 {
 			return "f32s(" + e + ")"
